@@ -11,8 +11,9 @@ CONSTANTS
   MaxAdv = 2
   MaxReply = 0
   MaxRaces = 1
+  StaleWatcher = FALSE
   MaxExt = 7
 SYMMETRY MCSym
 SPECIFICATION Spec
-INVARIANTS TypeOK RoutedByFirstUfrag RepliesOnSameConn BadFirstFrameClosed ProvisionalExpires WgCounts CloseCompletes CloseProgress
+INVARIANTS TypeOK RoutedByFirstUfrag RepliesOnSameConn BadFirstFrameClosed ProvisionalExpires WgCounts CloseCompletes CloseProgress NoStaleRemoval
 CHECK_DEADLOCK FALSE
